@@ -19,8 +19,8 @@ prefix / suffix / subsequence checks exact on parts of valid strings, characters
 places).  `laws_bytes`, `laws_ascii`, `laws_latin1` (below) and `laws_utf8`
 (`H5V/Lemmas/TendrilUtf8.lean`, which relates the futf-based prefix / suffix checks of `fmt.rs` to
 Unicode Table 3-7 and derives `C11_utf8_valid`: a UTF-8 tendril always holds valid UTF-8)
-discharge them; WTF-8 (the only format with a fix-up) is covered by C12's safety theorems and by
-the correspondence only.  `C11_no_spurious_panic`: below 2^30 bytes the model panics only where
+discharge them; WTF-8 (the only format with a fix-up) has its own refinement theorems over `LawsFx`
+in `Props/C11Wtf8.lean` (`C11_step_refines_wtf8`, `C11_run_refines_wtf8`, `C11_wtf8_valid`).  `C11_no_spurious_panic`: below 2^30 bytes the model panics only where
 the specification does.
 -/
 namespace H5V.Props.C11
